@@ -86,6 +86,23 @@ EDITS = [
      "            _ph: PhantomData,\n            #[cfg(feature = \"verif-hooks\")]\n            verif_last: crate::verif::VerifInput::None,\n        };\n\n        cli.writer.write_str(cli.prompt)?;", ["C15", "C06"]),
     ("slice-buffer-len-off-by-one", "embedded-cli/src/buffer.rs", "impl Buffer for &mut [u8] {\n    fn as_slice(&self) -> &[u8] {\n        self\n    }",
      "impl Buffer for &mut [u8] {\n    fn as_slice(&self) -> &[u8] {\n        self\n    }\n\n    fn len(&self) -> usize {\n        self.as_slice().len().saturating_sub(1)\n    }", ["C05", "C10"]),
+    ("macro-help-usage-error-ignored", "embedded-cli-macros/src/command/help.rs", "            writer.write_title(\"Usage:\")?;", "            let _ = writer.write_title(\"Usage:\");", ["C14"]),
+    ("macro-help-list-error-ignored", "embedded-cli-macros/src/command/help.rs", "                writer.write_list_element(#name, #help, #max_len)?;", "                let _ = writer.write_list_element(#name, #help, #max_len);", ["C14"]),
+    ("EQUIVALENT-help-output-not-flushed", CLI, "        if writer.is_dirty() {\n            self.writer.write_str(codes::CRLF)?;\n        }\n        self.writer.flush()?;\n\n        Ok(())\n    }\n}",
+     "        if writer.is_dirty() {\n            self.writer.write_str(codes::CRLF)?;\n        }\n\n        Ok(())\n    }\n}", []),
+    ("tokens-lose-escaped-backslash", TOK, "                Mode::Unescape => {\n                    bytes[insert] = byte;\n                    insert += 1;", "                Mode::Unescape => {\n                    if byte != b'\\\\' {\n                        bytes[insert] = byte;\n                        insert += 1;\n                    }", ["C01"]),
+    ("args-double-dash-not-sticky", "embedded-cli/src/arguments.rs", "                    self.values_only = true;\n", "", ["C01"]),
+    ("clear-line-without-cr", CLI, "        self.writer.write_str(\"\\r\")?;\n        self.writer.write_bytes(codes::CLEAR_LINE)?;", "        self.writer.write_bytes(codes::CLEAR_LINE)?;", ["C06", "C13"]),
+    ("set-prompt-keeps-old-prompt-on-screen", CLI, "        self.prompt = prompt;\n        self.clear_line(false)?;", "        self.clear_line(false)?;\n        self.prompt = prompt;", ["C06"]),
+    ("recall-does-not-clear-longer-line", CLI, "            editor.clear();\n            editor.insert(element);\n            self.clear_line(false)?;", "            editor.clear();\n            editor.insert(element);\n            self.writer.write_str(\"\\r\")?;\n            self.writer.write_str(self.prompt)?;", ["C06"]),
+    # ---- behaviour-preserving changes: the checks must stay silent (false-alarm probes)
+    ("EQUIVALENT-extra-flush-in-echo", CLI, "            self.writer.flush_str(c)?;", "            self.writer.flush_str(c)?;\n            self.writer.flush()?;", ["C15", "C06", "C14", "C05"]),
+    ("EQUIVALENT-cursor-restore-with-one-counted-move", CLI, "            for _ in editor.cursor()..editor.len() {\n                self.writer.write_bytes(codes::CURSOR_BACKWARD)?;\n            }",
+     "            let mut n = editor.len() - editor.cursor();\n            if n > 0 {\n                let mut buf = [0u8; 20];\n                let mut i = 20;\n                while n > 0 {\n                    i -= 1;\n                    buf[i] = b'0' + (n % 10) as u8;\n                    n /= 10;\n                }\n                self.writer.write_bytes(b\"\\x1B[\")?;\n                self.writer.write_bytes(&buf[i..])?;\n                self.writer.write_bytes(b\"D\")?;\n            }", ["C06", "C13", "C15", "C14"]),
+    ("EQUIVALENT-error-text-reworded", CLI, "                self.writer.write_str(\"unexpected argument: \")?;", "                self.writer.write_str(\"unexpected value: \")?;", ["C13", "C14", "C16", "C01"]),
+    ("EQUIVALENT-crlf-in-two-writes", CLI, "            ControlInput::Enter => {\n                self.writer.write_str(codes::CRLF)?;", "            ControlInput::Enter => {\n                self.writer.write_str(\"\\r\")?;\n                self.writer.write_str(\"\\n\")?;", ["C13", "C01", "C06", "C14", "C15"]),
+    ("EQUIVALENT-history-compare-bytes", HI, "            Some(existing) if existing == text => {", "            Some(existing) if existing.as_bytes() == text.as_bytes() => {", ["C10"]),
+    ("EQUIVALENT-clear-line-erases-then-returns", CLI, "        self.writer.write_str(\"\\r\")?;\n        self.writer.write_bytes(codes::CLEAR_LINE)?;", "        self.writer.write_bytes(codes::CLEAR_LINE)?;\n        self.writer.write_str(\"\\r\")?;", ["C06", "C13", "C10"]),
     ("common-prefix-byte-granular", UT, "        if c1.is_some() {\n            pos = byte_counter;\n        }", "        pos = byte_counter;", ["C11", "C02", "C03"]),
 ]
 
@@ -160,14 +177,20 @@ def main():
         finally:
             clean()
         caught_by = [p for p, v in res.items() if v["caught"]]
+        if name.startswith("EQUIVALENT-") and caught_by:
+            print(f"!!! FALSE ALARM on behaviour-preserving change {name}: {caught_by} {[res[p]['detail'] for p in caught_by]}", flush=True)
         results.append(dict(name=name, compiles=compiles, suite_passes=tests, expected=props, caught_by=caught_by, checks=res))
         print(f"{name:48s} compiles={compiles} suite_passes={tests} caught_by={caught_by} missed_by={[p for p in props if p not in caught_by]}", flush=True)
     clean()
     sh(["rm", "-rf", SCRATCH])
     json.dump(results, open(os.path.join(ROOT, "tools", "mutants-result.json"), "w"), indent=1)
-    missed = [r["name"] for r in results if not r.get("caught_by")]
-    print(f"{len(results) - len(missed)}/{len(results)} mutants caught by at least one expected check; not caught: {missed}")
-    return 0 if not missed else 1
+    real = [r for r in results if not r["name"].startswith("EQUIVALENT-")]
+    equiv = [r for r in results if r["name"].startswith("EQUIVALENT-")]
+    missed = [r["name"] for r in real if not r.get("caught_by")]
+    alarms = [r["name"] for r in equiv if r.get("caught_by")]
+    print(f"{len(real) - len(missed)}/{len(real)} property-breaking mutants caught by at least one expected check; not caught: {missed}")
+    print(f"{len(equiv) - len(alarms)}/{len(equiv)} behaviour-preserving changes left alone; false alarms: {alarms}")
+    return 0 if not missed and not alarms else 1
 
 
 if __name__ == "__main__":
